@@ -130,6 +130,27 @@ def conn_judge(cases, res, canon):
                     bump(x)
                 else:
                     bump(x)
+        elif c["op"] == "cresp":
+            # response direction: the decoded Go value of a hand-written reader vs the Legacy/ConnOps/ConnReaders model
+            a = c["args"].split(" ")
+            tag = f"{a[0]} v{int(a[1], 16)}"
+            gt = g.split(" ")
+            gval = " ".join(gt[:2]) if gt[0] not in ("ERR", "PANIC") else gt[0]
+            if m.startswith(("EXN", "ENC-DIFF")) or m in ("MISSING", "BADCASE"):
+                fail("correspondence", f"response case not evaluated by the model driver ({m[:40]}) [{tag}]", c)
+            elif gval == "PANIC":
+                fail("property", f"a Conn response reader panicked on a well-formed response [{tag}]", c)
+            elif gval != m:
+                fail("property", f"a well-formed response does not decode to the field values that were encoded: Conn reader vs model [{tag}]", c)
+                bump("resp:DIFF")
+            else:
+                bump("resp:same" if gval != "ERR" else "resp:same-error")
+            x = gt[-1]
+            if "DIFF" in x:
+                bump("resp-proto:DIFF")
+                fail("property", f"the protocol package decodes / re-encodes the same response differently [{tag}]", c, verdict=x[:400])
+            else:
+                bump("resp-" + x)
         elif c["op"] == "neg":
             a = c["args"].split(" ")
             sup = [int(x, 16) for x in a[2].split(",")]
@@ -160,8 +181,10 @@ def conn_judge(cases, res, canon):
 def conn_correspondence(ctx):
     model = L.ocaml_build("c04conn")
     n = conn_rounds(ctx)
+    rmodel = L.ocaml_build("c04connr")
     cases = conn_gen(ctx.seed, n)
-    res = L.run_model(model, "\n".join(c["line"] for c in cases) + "\n")
+    res = L.run_model(model, "\n".join(c["line"] for c in cases if c["op"] != "cresp") + "\n")
+    res.update(L.run_model(rmodel, "\n".join(c["line"] for c in cases if c["op"] == "cresp") + "\n"))
     # the generic schema model on the bytes the real Conn wrote
     lines = []
     for c in cases:
@@ -337,7 +360,9 @@ def replay(ctx, payload):
         cid = inp["case"].split(" ", 1)[0]
         now = [c for c in conn_gen(inp.get("seed", 1), inp.get("rounds", 6)) if c["id"] == cid and c["line"] == inp["case"]]
         print("real Conn now:", now[0]["go"][:600] if now else "(the generator no longer produces this line)")
-        print("ConnWriters model now:", L.run_model(model, inp["case"] + "\n"))
+        if " cresp " in inp["case"]:
+            model = L.ocaml_build("c04connr")
+        print("Conn model now:", L.run_model(model, inp["case"] + "\n"))
         return 1
     model = L.ocaml_build("c04")
     print("model now:", L.run_model(model, inp["case"] + "\n"))
